@@ -7,7 +7,6 @@ import (
 	"math/rand/v2"
 	"os"
 	"runtime"
-	"strings"
 	"sync"
 	"sync/atomic"
 	"time"
@@ -331,11 +330,11 @@ func (r *Rig) keyOf(input, header string) int {
 	return -1
 }
 
-func (r *Rig) keyRemoval(key int, kr KeyRemoval) *KeyRemoval {
+func (r *Rig) keyRemoval(key int, call int64, inst *Instance, creator, hookOf *Subscriber, what string) *KeyRemoval {
 	if key < 0 || key >= len(r.Keys) {
 		return nil
 	}
-	p := &KeyRemoval{Call: kr.Call, Inst: kr.Inst, Creator: kr.Creator, HookOf: kr.HookOf, What: kr.What}
+	p := &KeyRemoval{Call: call, Inst: inst, Creator: creator, HookOf: hookOf, What: what}
 	r.mu.Lock()
 	r.keyRemovals[key] = append(r.keyRemovals[key], p)
 	r.mu.Unlock()
@@ -745,8 +744,6 @@ func (r *Rig) newEvent(key int, inst *Instance, g int, target *Subscriber) *Even
 	return e
 }
 
-func (r *Rig) finishEvent(e *Event) {}
-
 // Emit sends one event through the instance: Update (target nil) or UpdateSubscription.
 func (r *Rig) Emit(inst *Instance, g int, target *Subscriber, staleUse bool) *Event {
 	if inst == nil || inst.Key < 0 {
@@ -811,7 +808,7 @@ func (r *Rig) SourceDone(inst *Instance, how string) {
 		return
 	}
 	inv := r.Clock.Tick()
-	kr := r.keyRemoval(inst.Key, KeyRemoval{Call: inv, Inst: inst, Creator: inst.Creator, What: "done:" + how})
+	kr := r.keyRemoval(inst.Key, inv, inst, inst.Creator, nil, "done:"+how)
 	inst.Updater.Done()
 	ret := r.Clock.Tick()
 	if kr != nil {
@@ -929,6 +926,11 @@ func (r *Rig) quietNow(requireCtx bool) string {
 		if nd[[2]int64{int64(id.ConnectionID), id.SubscriptionID}] == 0 {
 			return fmt.Sprintf("subscriber %d not completed", s.Idx)
 		}
+	}
+	if n, inc := int64(len(nd)), r.Rep.SubInc.Load(); n < inc {
+		// every admitted subscription was reported once; wait for as many completion signals (this also
+		// covers synchronous subscribers whose identifier was never learned)
+		return fmt.Sprintf("subscriber completions outstanding: %d completed of %d admitted", n, inc)
 	}
 	if !requireCtx {
 		return ""
@@ -1286,12 +1288,3 @@ func (h *History) Describe(max int) []string {
 	}
 	return out
 }
-
-func trimTo(s string, n int) string {
-	if len(s) > n {
-		return s[:n] + "…"
-	}
-	return s
-}
-
-var _ = strings.TrimSpace
